@@ -17,7 +17,7 @@ RULE = ('Graphs as C12 x 4 drawn queries (root in the graph, v in {None, node, u
         'non-trivial = the DAG has >= 3 edges over >= 2 distinct instants.')
 ASSUMPTIONS = ['e > t', "node ids are ints or '_'-free strings"]
 TECHNIQUE = 'PBT with a validity predicate over the returned DAG, sources and targets; exhaustive small universes (thorough)'
-BUDGET = {'quick': {'cases': 10000, 'seconds': 50}, 'thorough': {'cases': 90000, 'seconds': 560}}
+BUDGET = {'quick': {'cases': 10000, 'seconds': 50}, 'thorough': {'cases': 400000, 'seconds': 560}}
 QUERIES = st.lists(pc.QUERY, min_size=4, max_size=4)
 TRIG = 'root_selfloop_in_window'
 
